@@ -160,6 +160,7 @@ def check(repo: Repo, rep: Report) -> None:
         rep.ob("RP3-trim-bounds", init, f"self.{fld} defaulted by `{param} is None`", ok,
                f"`{param}` is defaulted by truthiness: buffer_size=0 / window=0 would mean 'unbounded'")
     SC.rule_dispose(rep, cls)
+    SC.rule_subscribe_atomic(rep, cls)
     rd = repo.fn(R, "RemovableDisposable.dispose")
     rem = [s for s in sites(rd) if isinstance(s.node, ast.Call) and dotted(s.node.func) == "self.subject.observers.remove"]
     ok = len(rem) == 1 and u(rem[0].node.args[0]) == "self.observer" and any(
